@@ -86,6 +86,10 @@ def run_case(case, ctx):
     perm = rng.integers(0, N, size=min(2 * N, 12))
     shuffled = sp[perm].clone()
     single = sp[int(rng.integers(0, N))].clone().unsqueeze(0)
+    # all rows distinct, in no particular order (a de-duplicated data set), held as a strided / column-major / sliced view
+    dperm = rng.permutation(N)[:max(2, int(rng.integers(2, N + 1)))] if N > 1 else np.array([0])
+    distinct, dform = gen.memory_form(sp[dperm.tolist()].clone(), rng)
+    ctx.seen("batch_memory_forms", dform)
     plain = {}
     for name, ob, op, ab in obs:
         keep = sp.clone()
@@ -132,7 +136,7 @@ def run_case(case, ctx):
                               f"{got!r}, Tr(rho O)/Tr(rho) = {want!r} (|diff| {abs(got-want):.3e}, tol {tau*max(scale, abs(want)):.1e})",
                               tags=dict(tags, obs=name.split("(")[0]), witness=wit)
         # other batch shapes give the same per-row values
-        for bname, batch, rows in (("shuffled", shuffled, perm), ("single", single, None)):
+        for bname, batch, rows in (("shuffled", shuffled, perm), ("single", single, None), ("distinct rows, unordered, " + dform, distinct, dperm)):
             bk = batch.clone()
             vb = ctx.lib(f"{name}.apply({bname})", ob.apply, st, batch, tags=dict(tags, obs=name.split("(")[0]))
             ctx.count("batch_consistency_checks")
